@@ -124,6 +124,9 @@ type Oracle struct {
 	cur    Op
 	V      *Violation
 	Unj    map[string]int // deliberately unjudged cases, counted
+	// Sparse: the state comparison after a step (O(table size)) is skipped for this step; used by the
+	// large-size runs, which compare every 16th step and at the end.
+	Sparse bool
 }
 
 func NewOracle(report string, tags ...string) *Oracle {
